@@ -118,7 +118,11 @@ def build(desc, want_impl=True):
     L = max(1.0, rA.size(), rB.size(), float(np.linalg.norm(rA.centre())), float(np.linalg.norm(rB.centre())),
             float(np.linalg.norm(rA.centre() - rB.centre())))
     truth["L"] = L
-    return {"A": A, "B": B, "rA": rA, "rB": rB, "truth": truth}
+    same = kind in ("identical", "same")
+    spec = {"A": (ta, sc.SIZES[ta][desc["sa"]], sc.pose(desc["oa"], cA), mA),
+            "B": ((ta, sc.SIZES[ta][desc["sa"]], sc.pose(desc["oa"], cA), mA) if same else
+                  (tb, sc.SIZES[tb][desc["sb"]], sc.pose(desc["ob"], cB), mB))}
+    return {"A": A, "B": B, "rA": rA, "rB": rB, "truth": truth, "spec": spec}
 
 
 def enumerate_custom(ta, tb, alph, bound):
